@@ -450,7 +450,10 @@ EvCCall ==
          \* inflate: the field is the checksum of what the decoder has produced into its
          \* window, which runs ahead of what has been delivered; the two coincide at stream end
          chk == IF isdef THEN e.ret \in {0, 1, -5} ELSE e.zlib /\ e.ret = 1
-     IN /\ Report(CallRules(e, newcc, chk), 5)
+         \* C06 through the C API: at stream end the totals show exactly the encoded length
+         exact == ~isdef /\ e.ret = 1 /\ cs # 0 /\ K.v = "done" =>
+                     e.after.total_in = K.endbyte /\ e.after.total_out = K.plen
+     IN /\ Report(CallRules(e, newcc, chk) \o CIff("c_stream_end_totals_are_exact", exact), 6)
         /\ cc' = newcc
   /\ l' = l + 1
   /\ Keep(<<acc, cs, ip, cid, dc, ds, ss, seen>>)
